@@ -71,8 +71,13 @@ def gen_history(rng, maxlen):
         elif r < 0.7:
             scope = rng.choice(['/', lay.home] + lay.vols)
             reply = rng.choice(['0', '0,1', '1', '0-1', '', '2'])
-            steps.append({'cmd': 'restore', 'argv': [scope, '--sort', rng.choice(['date', 'path'])], 'stdin': reply + '\n'})
-            plan.append(('restore', scope, reply))
+            st = {'cmd': 'restore', 'argv': [scope, '--sort', rng.choice(['date', 'path'])], 'stdin': reply + '\n'}
+            faulted = rng.random() < 0.15
+            if faulted:
+                # the file system refuses the move (EACCES): nothing is restored, and the entry is still in the trash, listed
+                st['plan'] = {'faults': {'move': {'errno': 13}}}
+            steps.append(st)
+            plan.append(('restore', scope, reply, faulted))
         elif r < 0.85:
             pat = rng.choice(['a', 'foo*', '*.txt', '*', '/home/u/d/*', 'é', '?', 'zzz', lay.vols[0] + '/*' if lay.vols else '/x'])
             steps.append({'cmd': 'rm', 'argv': [pat]})
@@ -125,7 +130,7 @@ def judge(run, scn, plan, res, section='history'):
             import p_c13
             if pl[2] != '' and rows:
                 d = p_c13.denote(pl[2], len(rows))
-                if d[0] == 'ok':
+                if d[0] == 'ok' and not (len(pl) > 3 and pl[3]):
                     exists = set(snap)
                     for i in d[1]:
                         date, path = rows[i]
